@@ -471,3 +471,78 @@ package gojq
 //@   ensures old(terminal(env)) ==> !ok && v == nil && terminal(env)
 //@   return 1 ensures ok && terminal(env)
 //@   return 4 ensures !ok && v == nil && terminal(env)
+
+// ---------------------------------------------------------------------------------------
+// C19: custom functions are accepted for exactly the arities they were registered with
+// ---------------------------------------------------------------------------------------
+
+// The arity mask 1<<(max+1) - 1<<min has bit k set exactly for min <= k <= max.
+//@ lemma arity_mask(a int, b int, k int)
+//@   property C19
+//@   requires 0 <= a && a <= b && b <= 30 && 0 <= k && k <= 62
+//@   ensures bit(pow2(b + 1) - pow2(a), k) == (a <= k && k <= b)
+//@   enumerate a 0 30
+//@   enumerate b 0 30
+//@   enumerate k 0 62
+//@   trigger bit(pow2(b + 1) - pow2(a), k)
+
+//@ func (fn function) accept(cnt int) (r bool)
+//@   property C19
+//@   requires 0 <= cnt && cnt <= 62 && 0 <= fn.argcount
+//@   ensures r == bit(fn.argcount, cnt)
+
+// withFunction: outside 0 <= minarity <= maxarity <= 30 the documented panic; inside, the option it
+// returns carries a mask whose bit k is set exactly for the registered arities.
+//@ func withFunction(name string, minarity, maxarity int, iter bool, f func(any, []any) any) (o CompilerOption)
+//@   property C19
+//@   requires 0 <= minarity && minarity <= maxarity && maxarity <= 30
+//@   modifies *
+//@   closure 1 captures 0 <= argcount && argcount == pow2(maxarity + 1) - pow2(minarity)
+//@   closure 1 captures forall k :: 0 <= k && k <= 62 ==> (arity_mask(minarity, maxarity, k) ==> (bit(argcount, k) == (minarity <= k && k <= maxarity)))
+
+// One value: NewIter returns a one-shot iterator carrying exactly that value.
+//@ func NewIter[*github.com/itchyny/gojq.tooManyVariableValuesError](values []*tooManyVariableValuesError) (it Iter)
+//@   property C19
+//@   modifies
+//@   ensures len(values) == 1 ==> (it is *unitIter) && fresh(it.(*unitIter)) && !it.(*unitIter).done && it.(*unitIter).value == values[0]
+
+//@ func NewIter[*github.com/itchyny/gojq.expectedVariableError](values []*expectedVariableError) (it Iter)
+//@   property C19
+//@   modifies
+//@   ensures len(values) == 1 ==> (it is *unitIter) && fresh(it.(*unitIter)) && !it.(*unitIter).done && it.(*unitIter).value == values[0]
+
+// Too few or too many values for the declared variables: a one-shot iterator carrying the named error.
+//@ func (c *Code) RunWithContext(ctx context.Context, v any, values []any) (it Iter)
+//@   property C19
+//@   requires c != nil
+//@   modifies *
+//@   ensures len(values) > len(old(c.variables)) ==> (it is *unitIter) && !it.(*unitIter).done && (it.(*unitIter).value is *tooManyVariableValuesError)
+//@   ensures len(values) < len(old(c.variables)) ==> (it is *unitIter) && !it.(*unitIter).done && (it.(*unitIter).value is *expectedVariableError) &&
+//@       it.(*unitIter).value.(*expectedVariableError).n == old(c.variables[len(values)])
+//@   ensures len(values) == len(old(c.variables)) ==> (it is *env)
+
+//@ func newEnv(ctx context.Context) (e *env)
+//@   property C19
+//@   modifies
+//@   ensures e != nil && fresh(e)
+
+//@ func (env *env) execute(bc *Code, v any, vars []any) (it Iter)
+//@   property C19
+//@   flag nosafety
+//@   modifies *
+//@   ensures (it is *env) && it.(*env) == env
+
+// Registration: a new name gets exactly the mask and the iterator flag; a second registration of
+// the same name keeps the flag (a mismatch is the documented panic) and accepts the union of arities.
+//@ func withFunction$1(c *compiler)
+//@   property C19
+//@   panics
+//@   requires c != nil && 0 <= argcount
+//@   requires c.customFuncs != nil ==> forall s string :: {c.customFuncs[s]} (s in c.customFuncs) ==> 0 <= c.customFuncs[s].argcount
+//@   modifies *
+//@   ensures c.customFuncs != nil && (name in c.customFuncs)
+//@   ensures !old(c.customFuncs != nil && (name in c.customFuncs)) ==> c.customFuncs[name].argcount == argcount && c.customFuncs[name].iter == iter
+//@   ensures old(c.customFuncs != nil && (name in c.customFuncs)) ==> c.customFuncs[name].iter == iter && c.customFuncs[name].iter == old(c.customFuncs[name].iter)
+//@   ensures old(c.customFuncs != nil && (name in c.customFuncs)) ==> c.customFuncs[name].argcount == bitor(argcount, old(c.customFuncs[name].argcount))
+//@   ensures old(c.customFuncs != nil && (name in c.customFuncs)) ==> forall k :: 0 <= k && k <= 62 ==>
+//@       (bitor_fact(argcount, old(c.customFuncs[name].argcount), k) ==> (bit(c.customFuncs[name].argcount, k) == (bit(argcount, k) || bit(old(c.customFuncs[name].argcount), k))))
